@@ -3,7 +3,6 @@ package main
 import (
 	"strings"
 
-	"hmsverif/internal/hs"
 )
 
 // c11Oracle: both backends produce exactly refsem's observation for control-flow programs; the
@@ -19,7 +18,7 @@ func c11Oracle(pc progCase, r *Result) {
 		r.Note("rejected-by-analyzer", 1)
 		return
 	}
-	ref := hs.Eval(pc.Prog, &pc.P, refBudget)
+	ref := pc.eval()
 	for _, t := range pc.Tags {
 		if strings.HasPrefix(t, "unspec:") {
 			ref.Unspec = t[7:]
